@@ -93,6 +93,9 @@ fixed_degree_isogeny(theta_chain_t *isog,
                      int small)
 {
 
+    // the output chain holds no memory until it is computed (so that theta_chain_finalize is safe after a failure)
+    isog->steps = NULL;
+
     // var declaration
     int found;
     ibz_t two_pow, tmp;
@@ -259,6 +262,7 @@ fixed_degree_isogeny(theta_chain_t *isog,
                                 &T1m2,
                                 strategies[TORSION_PLUS_EVEN_POWER - length + 2],
                                 0);
+    theta_chain_finalize(&second_isog);
 #endif
 
     // if (!small) {
@@ -746,6 +750,9 @@ dim2id2iso_ideal_to_isogeny_clapotis(theta_chain_t *isog,
     quat_alg_elem_t quat_tmp;
     quat_alg_elem_t quat_gcd_remove;
 
+    // the output chain holds no memory until it is computed (so that theta_chain_finalize is safe after a failure)
+    isog->steps = NULL;
+
     ibq_t norm;
     ibq_init(&norm);
     ibz_t test1, test2;
@@ -968,6 +975,7 @@ dim2id2iso_ideal_to_isogeny_clapotis(theta_chain_t *isog,
         int bv = fixed_degree_isogeny(&Fv, &idealv, v, &adjust_v, 1);
         if (!bv) {
             // Fv is not set: report the failure instead of using it
+            theta_chain_finalize(&Fu);
             quat_left_ideal_finalize(&idealu);
             quat_left_ideal_finalize(&idealv);
             found = 0;
@@ -1034,6 +1042,8 @@ dim2id2iso_ideal_to_isogeny_clapotis(theta_chain_t *isog,
         fp2_copy(&E01.E2.A, &Fv.codomain.E2.A);
         fp2_copy(&E01.E2.C, &Fv.codomain.E2.C);
 
+        theta_chain_finalize(&Fu);
+        theta_chain_finalize(&Fv);
         quat_left_ideal_finalize(&idealu);
         quat_left_ideal_finalize(&idealv);
     } else if (number_sum_square == 1) {
@@ -1143,6 +1153,7 @@ dim2id2iso_ideal_to_isogeny_clapotis(theta_chain_t *isog,
         fp2_copy(&E01.E2.A, &E0.A);
         fp2_copy(&E01.E2.C, &E0.C);
 
+        theta_chain_finalize(&Fu);
         quat_left_ideal_finalize(&idealu);
     } else {
         assert(number_sum_square == 2);
@@ -1411,6 +1422,8 @@ dim2id2iso_arbitrary_isogeny_evaluation(ec_basis_t *basis,
                                                  basis,
                                                  lideal,
                                                  &QUATALG_PINFTY);
+
+    theta_chain_finalize(&Phi);
 
     ibz_vec_4_finalize(&coeffs);
 
